@@ -759,7 +759,7 @@ def _run_history(ctx: Ctx, pi: int, pool: Pool, hist: list, drv: Optional[Driver
                              'the model accounts for xsi_types / selected_by / identity.elements, cache growth, write-once '
                              'lazy attributes and the clearable fields of the scratch context only')
             for k, (a, b) in dd.items():
-                if a in (['<absent>'], ['<unset>']) and k not in lazy_keys:
+                if a in (['<absent>'], ['<unset>']) and b != ['<unset>'] and k not in lazy_keys:
                     lazy_keys[k] = len(lazy_keys)
                     steps.append(['m', lazy_keys[k]])
             present = sorted(v for k, v in lazy_keys.items() if k in fp2 and fp2[k] != ['<unset>'])
